@@ -95,6 +95,8 @@ pub fn work_dir(property: &str, check: &str) -> PathBuf {
 /// One campaign: `jobs` libFuzzer processes (distinct seeds, shared working corpus) of
 /// `runs_per_job` executions each against the check `check` of the context's property.
 pub fn run_campaign(ctx: &Ctx, bin: &Path, check: &str, raw: bool, runs_per_job: u64, jobs: u32) -> Campaign {
+    // exploration budget per campaign: executions, and a wall-clock cap for checks whose cases are heavy
+    let max_secs: u64 = std::env::var("VERIF_FUZZ_SECS").ok().and_then(|s| s.parse().ok()).unwrap_or(300);
     let started = std::time::Instant::now();
     let wd = work_dir(&ctx.property, check);
     let _ = std::fs::remove_dir_all(&wd);
@@ -132,6 +134,7 @@ pub fn run_campaign(ctx: &Ctx, bin: &Path, check: &str, raw: bool, runs_per_job:
         let child = Command::new(bin)
             .arg(&corpus)
             .arg(format!("-runs={}", runs_per_job))
+            .arg(format!("-max_total_time={}", max_secs))
             .arg(format!("-seed={}", seed))
             .arg(format!("-max_len={}", max_len))
             .arg("-len_control=0")
@@ -293,9 +296,19 @@ pub fn save_corpus(ctx: &Ctx, keep: usize) {
         let dest = ctx.corpus_dir(&check);
         let _ = std::fs::remove_dir_all(&dest);
         let _ = std::fs::create_dir_all(&dest);
+        // half of the kept inputs are the smallest ones, the other half evenly spread over the rest
+        let eligible: Vec<&(u64, PathBuf)> = files.iter().filter(|(l, _)| *l <= 8192).collect();
+        let mut pick: Vec<usize> = (0..eligible.len().min(keep / 2)).collect();
+        let rest = eligible.len().saturating_sub(pick.len());
+        let want = keep.saturating_sub(pick.len()).min(rest);
+        for k in 0..want {
+            pick.push(keep / 2 + k * rest / want.max(1));
+        }
+        pick.sort();
+        pick.dedup();
         let mut n = 0;
-        for (len, p) in files.iter().filter(|(l, _)| *l <= 8192).take(keep) {
-            let _ = len;
+        for i in pick {
+            let Some((_, p)) = eligible.get(i) else { continue };
             if let Some(name) = p.file_name() {
                 let _ = std::fs::copy(p, dest.join(name));
                 n += 1;
